@@ -132,12 +132,13 @@ class Seg:
 
 
 class Enc:
-    __slots__ = ("data", "segs", "marks")
+    __slots__ = ("data", "segs", "marks", "ext")
 
     def __init__(self):
         self.data = bytearray()
         self.segs = []   # swappable runs
         self.marks = []  # (what, path, byte offset, bit offset in chunk, width bits, chunk bytes)
+        self.ext = []    # (decl id, field index, bits occupied, bits incl. padding) per encoded field
 
     def put_int(self, v, nbytes, big, what):
         off = len(self.data)
@@ -153,6 +154,7 @@ class Enc:
             self.segs.append(Seg(s.off + off, s.len, s.what))
         for (w, p, o, b, wd, cb) in other.marks:
             self.marks.append((w, p, o + off, b, wd, cb))
+        self.ext.extend(other.ext)
 
 
 class Model:
@@ -327,6 +329,78 @@ class Model:
             return None
         return tot // 8
 
+    # ------------------------------------------------------------ size classes (C16)
+    # ('static', bits) | 'dynamic' | 'unknown', from the property's own wording: dynamic =
+    # delimited by a size field, a count field or a condition flag (or an unsized custom
+    # field); unknown = nothing delimits it.
+    @staticmethod
+    def _sum_class(parts):
+        tot = 0
+        dyn = False
+        for p in parts:
+            if p == "unknown":
+                return "unknown"
+            if p == "dynamic":
+                dyn = True
+            else:
+                tot += p[1]
+        return "dynamic" if dyn else ("static", tot)
+
+    def class_field(self, d, idx, _depth=0):
+        fl = d["fields"][idx]
+        k = fl["kind"]
+        if fl.get("cond") is not None:
+            return "dynamic"
+        if k in ("padding_field", "checksum_field"):
+            return ("static", 0)
+        if k in ("payload_field", "body_field"):
+            return "dynamic" if self.payload_size_field(d) is not None else "unknown"
+        if k == "typedef_field":
+            return self.class_decl_total(fl["type_id"], _depth + 1)
+        if k == "array_field":
+            if fl.get("size") is not None:
+                if fl.get("width") is not None:
+                    return ("static", fl["width"] * fl["size"])
+                e = self.class_decl_total(fl["type_id"], _depth + 1)
+                if isinstance(e, tuple):
+                    return ("static", e[1] * fl["size"])
+                return e
+            return "dynamic" if self.array_target(d, fl["id"]) is not None else "unknown"
+        if k == "group_field":
+            return self.class_decl_total(fl["group_id"], _depth + 1)
+        return ("static", self.bit_width(fl))
+
+    def class_decl_own(self, d, _depth=0):
+        """(own fields without payload, with paddings at their declared size; payload class)"""
+        parts = []
+        payload = ("static", 0)
+        for idx, fl in enumerate(d.get("fields", ())):
+            c = self.class_field(d, idx, _depth)
+            if fl["kind"] in ("payload_field", "body_field"):
+                payload = c
+                continue
+            pad = self.padding_after(d, idx)
+            parts.append(("static", 8 * pad) if pad is not None else c)
+        return self._sum_class(parts), payload
+
+    def class_decl_total(self, id, _depth=0):
+        if _depth > 40:
+            return "unknown"
+        d = self.dm[id]
+        k = d["kind"]
+        if k in ("enum_declaration", "checksum_declaration"):
+            return ("static", d["width"])
+        if k == "custom_field_declaration":
+            return ("static", d["width"]) if d.get("width") is not None else "dynamic"
+        parts = []
+        chain = self.chain(d)
+        for x in chain:
+            own, pl = self.class_decl_own(x, _depth)
+            parts.append(own)
+        # only the payload of the declaration itself stays open (ancestors' payloads hold it)
+        parts.append(self.class_decl_own(d, _depth)[1])
+        return self._sum_class(parts)
+
     # ------------------------------------------------------------ encode
     def encode(self, tid, v):
         """-> Enc; raises EncodeFault / Abstain. Range / overflow / consistency faults are
@@ -470,7 +544,9 @@ class Model:
                 flush()
                 x = self._get(v, i, where)
                 if x is None:
+                    out.ext.append((d["id"], idx, 0, 0))
                     continue
+                n0 = len(out.data)
                 if k == "scalar_field":
                     self._scalar_bytes(x, fl["width"], "opt", w_here, out)
                 elif self.kind(fl["type_id"]) == "enum_declaration":
@@ -478,9 +554,11 @@ class Model:
                     out.put_int(self._enum_value(fl["type_id"], x, w_here), w // 8, self.big, "opt")
                 else:
                     out.extend(self.encode(fl["type_id"], x))
+                out.ext.append((d["id"], idx, 8 * (len(out.data) - n0), 8 * (len(out.data) - n0)))
                 continue
             if self.is_bitfield(fl):
                 w = self.bit_width(fl)
+                out.ext.append((d["id"], idx, w, w))
                 if k == "scalar_field" and i in flags:
                     vals = set()
                     for (oid, cv) in flags[i]:
@@ -557,7 +635,9 @@ class Model:
                 if tk == "checksum_declaration":
                     raise Abstain("checksum")
                 x = consts[i] if i in consts else self._get(v, i, where)
+                n0 = len(out.data)
                 out.extend(self.encode(fl["type_id"], x))
+                out.ext.append((d["id"], idx, 8 * (len(out.data) - n0), 8 * (len(out.data) - n0)))
             elif k == "array_field":
                 es = elems[i]
                 if fl.get("size") is not None and len(es) != fl["size"]:
@@ -572,9 +652,14 @@ class Model:
                         self._fault("size-overflow", w_here + " padding")
                     else:
                         out.data += bytes(pad - n)
+                    out.ext.append((d["id"], idx, 8 * n, 8 * (len(out.data) - start)))
+                else:
+                    out.ext.append((d["id"], idx, 8 * (len(out.data) - start), 8 * (len(out.data) - start)))
             elif k in ("payload_field", "body_field"):
+                n0 = len(out.data)
                 if payload is not None:
                     out.extend(payload)
+                out.ext.append((d["id"], idx, 8 * (len(out.data) - n0), 8 * (len(out.data) - n0)))
             elif k == "padding_field":
                 pass
             elif k == "checksum_field":
